@@ -632,6 +632,23 @@ func c10Gen(r *rand.Rand, tier string) []spec.Case {
 	if tier == "thorough" {
 		sos = append(sos, so{1000, 32 * 1024, true}, so{1 << 20, 32, true}, so{64*1024 - 1, 64, true}, so{1 << 22, 2, false})
 	}
+	// over-long stdout lines that are not ASCII: multi-byte UTF-8 sequences (2, 3, 4 bytes) shifted by 0-3
+	// leading bytes so that some sequence straddles every possible cut, and newline-free binary data
+	for shift := 0; shift < 4; shift++ {
+		for _, ru := range []string{"é", "€", "😀"} {
+			line := strings.Repeat("x", shift) + strings.Repeat(ru, (200000+r.Intn(1000))/len(ru)) + "\n"
+			add("stdout", spec.C10Case{Stderr: []byte("[INFO] alongside stdout\n"), Stdout: []byte(line), StdoutRep: 3, Chunk: pick(r, []int{0, 4096, 65536})})
+		}
+	}
+	for k := 0; k < 4; k++ {
+		b := spec.PRBytes(fmt.Sprint("c10bin", k, r.Intn(1000)), 150000+r.Intn(100000))
+		for i := range b {
+			if b[i] == '\n' {
+				b[i] = 0xc3
+			}
+		}
+		add("stdout", spec.C10Case{Stderr: []byte("[INFO] alongside stdout\n"), Stdout: append(b, '\n'), StdoutRep: 3, Chunk: pick(r, []int{0, 4096, 65536})})
+	}
 	for _, s := range sos {
 		line := c10Text(r, s.line)
 		if s.nl {
@@ -653,7 +670,7 @@ func init() {
 		ID: "C10", Level: "exploration", Race: true, TestName: "TestC10",
 		Gen: c10Gen, Batch: 150, Children: 8, PerCase: 2 * time.Second, Base: 90 * time.Second,
 		Judge: c10Judge, Finish: c10Finish,
-		Rule: "cases = (stderr byte sequence of 1-10 lines drawn from 26 line generators [text, level prefixes, near-miss prefixes, panic traces, hclog JSON, ill-typed JSON, non-object JSON, broken JSON, arbitrary bytes, lengths around/over the buffer, CR/CRLF placements, duplicates], write chunking, log buffer size in {16,64,4096,65536}) plus stdout volumes/line lengths after the handshake; a behaviour class = (set of line kinds in the case, buffer size, stdout size class); all non-trivial",
+		Rule: "cases = (stderr byte sequence of 1-10 lines drawn from 26 line generators [text, level prefixes, near-miss prefixes, panic traces, hclog JSON, ill-typed JSON, non-object JSON, broken JSON, arbitrary bytes, lengths around/over the buffer, CR/CRLF placements, duplicates], write chunking, log buffer size in {16,64,4096,65536}) plus stdout volumes/line lengths after the handshake (ASCII, multi-byte UTF-8 shifted across every cut position, newline-free binary); a behaviour class = (set of line kinds in the case, buffer size, stdout size class); all non-trivial",
 		Assumptions: []string{
 			"plugin modelled by an in-process runner whose stdout/stderr are unbuffered io.Pipes: 'never blocked by back-pressure' = the writer goroutine finished all writes (20 s watchdog)",
 			"a trailing CR before LF may be dropped from the copy; an unterminated last line may gain a newline",
